@@ -60,6 +60,19 @@ Fixpoint check_cases (db : list series) (cs : list (qcase * obs)) (idx : N) : li
   | (q, o) :: r => (if check_case db q o then [] else [idx]) ++ check_cases db r (idx + 1)
   end.
 
+(* cases with a query time range: ((lo, hi), query, observation); offsets relative to the dataset's t0 *)
+Definition run_case_w (db : list series) (w : Z * Z) (c : qcase) : obs :=
+  match c with
+  | CQ q => run_query_range frag_match (fst w) (snd w) q db
+  | CA op q1 q2 => run_arith_range frag_match (fst w) (snd w) op q1 q2 db
+  end.
+
+Fixpoint check_cases_w (db : list series) (cs : list ((Z * Z) * qcase * obs)) (idx : N) : list N :=
+  match cs with
+  | [] => []
+  | (w, q, o) :: r => (if res_eqb (run_case_w db w q) o then [] else [idx]) ++ check_cases_w db r (idx + 1)
+  end.
+
 Definition mk_series (n : str) (l : labels) (c : list (list pt)) : series :=
   {| s_name := n; s_labels := l; s_chunks := c |}.
 Definition mk_m (k : str) (op : mop) (v : str) : matcher := {| m_key := k; m_op := op; m_val := v |}.
